@@ -31,7 +31,7 @@ PROPS = {
                 "judged by the Lean Stage-A evaluator on the Horn clauses read off chalk's lowered Program; non-trivial = every judged answer; "
                 "distinct = distinct (program, goal, solver) lines",
         "technique": "certified checker: Lean 4 evaluator with proved soundness of yes/no against a fixed-point semantics (evalGoal_sound), applied to every solver answer",
-        "claim": "For every program/goal generated, a Unique / No-solution answer is accepted only if the kernel-checked evaluator certifies that the goal "
+        "claim": "(`forall` in goals is translated with a fresh opaque constant; Props/C02gen.lean forall_by_fresh_constant(s): for positive goals that is equivalent to holding for every term, refuted with negation.) For every program/goal generated, a Unique / No-solution answer is accepted only if the kernel-checked evaluator certifies that the goal "
                  "holds / fails in the declarative semantics (least fixed point, greatest for coinductive traits); Ambiguous on a decided closed goal is a rejection. "
                  "The solvers themselves are not verified: every produced answer is.",
         "note": "Trusted: Lean kernel; the translation horn.rs from chalk's lowered Program/Goal to Horn clauses (hand-written, small); Stage-A theorems "
@@ -129,7 +129,7 @@ PROPS = {
                 "both solvers, each goal on a fresh instance AND the whole sequence on one shared instance; every answer judged by the certified evaluator on autoProgram(data) "
                 "built in Lean from the ADT/impl data read off chalk's lowered Program; non-trivial = every judged answer",
         "technique": "certified checker (Stage-A evaluator, coinductive stratum proved sound in both directions) + Lean theorem that the gfp of the data-built clauses is the property's sentence (auto_sentence)",
-        "claim": "auto_sentence / no_default_if_provided / default_clause_of_adt: the meaning used as oracle is exactly 'explicit impl applies, or constructor without explicit/negative "
+        "claim": "(Props/C05strat.lean: a stratification exists iff no dependency cycle mixes polarities, so the mixed-instance correctness theorems hold for every instance without a mixed cycle.) auto_sentence / no_default_if_provided / default_clause_of_adt: the meaning used as oracle is exactly 'explicit impl applies, or constructor without explicit/negative "
                  "impl and all constituents hold, cycles satisfied'. decide_co_yes/no: every accepted Unique/No-solution is certified. Reuse of a solver instance is part of every run.",
         "note": "Trusted: Lean kernel, horn.rs data extraction (fields, impls, provided pairs), Stage-A theorems. Fragment: ADTs, u32/bool leaves; no tuples/refs/closures/phantom data. "
                 "Known findings found by this check (open): F14 SLG reuse after a coinductive cycle gives 'No possible solution' for a true goal; F15 SLG panic 'Negative subgoal had delayed_subgoals'. "
@@ -147,7 +147,7 @@ PROPS = {
                 "diamonds and cycles arise), 2-3 structs, 0-3 impls (plain and conditional); 3 conclusions each posed as forall<X>{ if (hyps) {C} } and forall<X>{ C } "
                 "interleaved (with/without/with or without/with/without) on ONE solver instance and on fresh instances, both solvers; each answer judged by the certified "
                 "evaluator on impl clauses + environment clauses read off chalk's lowered Program; non-trivial = every judged answer",
-        "technique": "certified checker (Stage-A evaluator) on the Horn encoding of hypotheses/implied bounds + Lean theorems on that encoding (hypothesis_usable, implied_bound, hypotheses_scoped)",
+        "technique": "Lean 4 theorems on the semantics for ALL programs, both strata (Props/C06sem.lean: weakening, cut, a ground hypothesis = an added program fact hyp_iff_fact / implies_iff_facts, no_leak) + certified checker (Stage-A evaluator) on the Horn encoding of hypotheses/implied bounds + Lean theorems on that encoding (hypothesis_usable, implied_bound, hypotheses_scoped)",
         "claim": "Every Unique/No-solution answer to a hypothetical goal is certified against the least fixed point in which hypotheses imply exactly the where-clauses of their traits "
                  "(transitively) and are visible only inside their `if`; the same conclusions without the hypotheses are posed to the same solver instance right before/after, so leakage "
                  "through caches/tables would be rejected.",
@@ -693,7 +693,7 @@ PROPS = {
         'level': 'proof',
         'rule': "MODEL lines: abstract instances are READ OFF THE REAL CODE (for every goal reachable from the root goals the harness asks chalk for the clauses solve_from_clauses would try - custom clauses, program_clauses_that_could_match, program_clauses_for_env, could_match filter - instantiates each against the goal with the real InferenceTable as Fulfill::new_with_clause does and canonicalizes the conditions as Fulfill::prove does; programs outside the abstraction of FixedPoint.lean are refused and counted) for three families: ground dependency graphs of <= 12 structs over an inductive and a #[coinductive] trait (chains with/without base case, diamonds, one cycle with/without base case entered through a tail, nested SCCs, two SCCs sharing nodes, random graphs; all-inductive / all-coinductive / mixed kinds; several impls per type), goals with unknowns (the F10 family: blanket impls `impl<X> Qi for X where X: Qj` + per trait no or >= 2 facts), and ProgGen programs with closed atomic goals whose goal closure is finite (<= 48 goals). One request line = one SCRIPT of calls on ONE real RecursiveSolver (cache on or off, overflow depth): per call the outcome kind (unique/none/ambig/panic:<site>), the hook's work counter and the hook-dumped cache must equal the model's, exactly. C10 scripts: histories of 1-7 plain solves of root goals (repetitions included) with the cache on and the same history with the cache off. ORACLE (real code, SLG, recursive, recursive without cache; no model line): corpus/C10 first (F10, F13, F14, F17 inputs), then generated subjects (as C09 without growing impls), goal pool of <= 5: the fresh-solver answer of every goal, then ALL permutations of <= 4 goals (5 in the thorough tier), every goal twice, and 12 (40) random sequences of length 2-6 with repetitions, each posed to ONE solver instance; every answer must equal (==) the fresh solver's; recursive cache-on vs cache-off fresh answers must be equal. One failing history per solver and program is reported. Non-trivial = instance with a cycle or an outcome other than unique",
         'technique': "Lean 4 theorems about an executable model of the recursive solver's fixed-point/caching framework (invariant over all call histories: cache soundness w.r.t. the instance's equations) + exact differential correspondence (outcome, work counter, cache contents) + exhaustive small histories on both real solvers",
-        'claim': "RECURSIVE framework, proof: cache_transparent_partial - for every acyclic instance (Ranked: any size, inductive/coinductive goals, goals with unknowns), every configuration with the F3/F7 repairs, every two histories of ARBITRARY calls (plain, interrupted by any oracle, panicking at any work step) on solvers with or without cache, two plain solves of the same goal that return give the same value (answer_is_semantic: the value the instance's equations determine); cache_transparent_acyclic: when the goal's rank fits under the overflow depth the solve after any history RETURNS and returns the fresh solver's value (unconditional). The full statement is refuted on the code as found (legacy_cache_transparent_refuted = F10, by decide on the 4-clause witness; f10_repaired) and is STILL refuted on the repaired code (cache_transparent_refuted, cache_on_off_refuted = F13 mixed cycles). The model agrees exactly with the real solver on every script incl. the F10 and F13 witnesses (pre-repair code checked against Cfg.legacy, repaired code against Cfg.current). SLG: differential only (translation validation against a fresh solver run).",
+        'claim': "(Props/C05strat.lean: mixed_history_correct_of_no_mixed_cycle - history independence for every ground instance without a mixed cycle, no level function assumed.) RECURSIVE framework, proof: cache_transparent_partial - for every acyclic instance (Ranked: any size, inductive/coinductive goals, goals with unknowns), every configuration with the F3/F7 repairs, every two histories of ARBITRARY calls (plain, interrupted by any oracle, panicking at any work step) on solvers with or without cache, two plain solves of the same goal that return give the same value (answer_is_semantic: the value the instance's equations determine); cache_transparent_acyclic: when the goal's rank fits under the overflow depth the solve after any history RETURNS and returns the fresh solver's value (unconditional). The full statement is refuted on the code as found (legacy_cache_transparent_refuted = F10, by decide on the 4-clause witness; f10_repaired) and is STILL refuted on the repaired code (cache_transparent_refuted, cache_on_off_refuted = F13 mixed cycles). The model agrees exactly with the real solver on every script incl. the F10 and F13 witnesses (pre-repair code checked against Cfg.legacy, repaired code against Cfg.current). SLG: differential only (translation validation against a fresh solver run).",
         'note': "Findings: F10 reproduced on the unchanged tree, REPAIRED (commit 4106fc3), regression input in corpus/C10. OPEN: F13 recursive_mixed_cycle_cached (NEW: the error value of a mixed inductive/coinductive cycle is entry-point dependent but cached), F14 slg_coinductive_cycle_table_reuse (lead's), F17 slg_answer_order_depends_on_history (NEW: SLG aggregate depends on answer order, which depends on earlier queries; both answers sound), F22 recursive_ambig_precision_depends_on_history (NEW, benign: the precision of an ambiguous answer depends on the entry point of a cycle; reported only when both answers admit solutions and one is ambiguous), F23 slg_runaway_after_history (NEW: a goal answered in 88 steps by a fresh SLG solver does not return after another goal of the same coinductive family was solved on the same forest). NOW THEOREMS (Props/C10fp.lean, Props/C05mixed.lean; ground instances, any cycle structure, no mixed cycle): history_independent_cyclic, cache_on_off_agree_cyclic (every answer after any history of plain calls, cache on or off, is the fixed-point answer), mixed_history_correct / mixed_answers_agree (stratified instances mixing polarities without a mixed cycle); f13_not_stratified shows the refuted mixed-cycle instance lies outside. NOT YET THEOREMS (differential only): goals with unknowns, equality of panics (with a cache a deep goal can be answered where a fresh solver overflows; the theorem speaks of calls that return), tables_keyed_by_goal for SLG. Trusted: Lean kernel, model fidelity (differential), instance extraction in fp.rs, harness.",
         'correspondence': 'FixedPoint.runHistory / solveRootGoal with the persistent cache (lean/ChalkModel/FixedPoint.lean) vs one chalk_recursive::RecursiveSolver answering a history (outcome kind, work counter, Cache entries through the cfg(chalk_verif) accessor)',
     },
